@@ -31,6 +31,7 @@ enum SExpr<T> {
     Un(i64, T, Box<SExpr<T>>),
     Bin(i64, Box<SExpr<T>>, Box<SExpr<T>>),
     First(Box<SExpr<T>>, Box<SExpr<T>>),
+    Other,
 }
 
 enum Op<T> {
@@ -39,7 +40,7 @@ enum Op<T> {
     Binary { mode: i64, code: i64, a: usize, b: usize },
     Matmul { a: usize, b: usize },
     Map { mutating: bool, e: SExpr<T>, a: usize },
-    FromIter { tensor: bool, shape: Vec<(usize, usize)>, colmajor: bool, a: usize },
+    FromIter { tensor: bool, shape: Vec<(usize, usize)>, colmajor: bool, e: SExpr<T>, a: usize },
     FromIters2 { e1: SExpr<T>, e2: SExpr<T>, a: usize },
 }
 
@@ -65,13 +66,14 @@ fn dec_sexpr<T: Enc>(s: &Sx, fuel: usize) -> Option<SExpr<T>> {
             Box::new(dec_sexpr(&v[3], fuel - 1)?),
         ),
         (5, 3) => SExpr::First(Box::new(dec_sexpr(&v[1], fuel - 1)?), Box::new(dec_sexpr(&v[2], fuel - 1)?)),
+        (6, 1) => SExpr::Other,
         _ => return None,
     })
 }
 
 fn uses_index<T>(e: &SExpr<T>) -> bool {
     match e {
-        SExpr::X | SExpr::K(_) => false,
+        SExpr::X | SExpr::K(_) | SExpr::Other => false,
         SExpr::Detach(a) | SExpr::Un(_, _, a) => uses_index(a),
         SExpr::Bin(_, a, b) => uses_index(a) || uses_index(b),
         SExpr::First(_, _) => true,
@@ -92,12 +94,13 @@ fn dec_op<T: Enc>(s: &Sx, d: usize) -> Option<Op<T>> {
         (2, 5) => Op::Binary { mode: v[1].usize()? as i64, code: v[2].usize()? as i64, a: v[3].usize()?, b: v[4].usize()? },
         (3, 3) => Op::Matmul { a: v[1].usize()?, b: v[2].usize()? },
         (4, 4) => Op::Map { mutating: v[1].bool()?, e: dec_sexpr(&v[2], 12)?, a: v[3].usize()? },
-        (5, 5) => {
-            let (tensor, shape, colmajor, a) = (v[1].bool()?, v[2].pairs_usize()?, v[3].bool()?, v[4].usize()?);
+        (5, 6) => {
+            let (tensor, shape, colmajor, e, a) =
+                (v[1].bool()?, v[2].pairs_usize()?, v[3].bool()?, dec_sexpr(&v[4], 12)?, v[5].usize()?);
             if tensor && shape.len() != d {
                 return None;
             }
-            Op::FromIter { tensor, shape, colmajor, a }
+            Op::FromIter { tensor, shape, colmajor, e, a }
         }
         (6, 4) => Op::FromIters2 { e1: dec_sexpr(&v[1], 12)?, e2: dec_sexpr(&v[2], 12)?, a: v[3].usize()? },
         _ => return None,
@@ -143,30 +146,37 @@ fn retype<'a, T: Real + Primitive + Clone, const D1: usize, const D2: usize>(x: 
     RecordTensor::from_existing(x.history(), TensorView::from(Tensor::from(sh2, x.view().iter().collect())))
 }
 
-fn eval<'a, T: Real + Primitive + Clone + 'static>(e: &SExpr<T>, x: &Record<'a, T>, first: bool, form: usize) -> Record<'a, T>
+fn eval<'a, T: Real + Primitive + Clone + 'static>(
+    e: &SExpr<T>,
+    x: &Record<'a, T>,
+    first: bool,
+    form: usize,
+    other: &Record<'a, T>,
+) -> Record<'a, T>
 where
     for<'t> &'t T: RealRef<T>,
 {
     match e {
         SExpr::X => x.clone(),
         SExpr::K(c) => Record::constant(c.clone()),
-        SExpr::Detach(a) => Record::constant(eval::<T>(a, x, first, form).number),
+        SExpr::Detach(a) => Record::constant(eval::<T>(a, x, first, form, other).number),
         SExpr::Un(code, c, a) => {
-            let r = eval::<T>(a, x, first, form);
+            let r = eval::<T>(a, x, first, form, other);
             rec_un::<T>(*code, c, &r, form).expect("EASYML-VERIF-BADCASE").expect("operator panicked")
         }
         SExpr::Bin(code, a, b) => {
-            let r1 = eval::<T>(a, x, first, form);
-            let r2 = eval::<T>(b, x, first, form);
+            let r1 = eval::<T>(a, x, first, form, other);
+            let r2 = eval::<T>(b, x, first, form, other);
             rec_bin::<T>(*code, &r1, &r2, form).expect("EASYML-VERIF-BADCASE").expect("operator panicked")
         }
         SExpr::First(a, b) => {
             if first {
-                eval::<T>(a, x, first, form)
+                eval::<T>(a, x, first, form, other)
             } else {
-                eval::<T>(b, x, first, form)
+                eval::<T>(b, x, first, form, other)
             }
         }
+        SExpr::Other => other.clone(),
     }
 }
 
@@ -181,6 +191,7 @@ fn iter_err<'a, T, const D: usize>(e: InvalidRecordIteratorError<'a, T, D>) -> i
 /// None: the case is not in the language.  Otherwise (operations completed, status)
 fn c_pass<'a, T: Real + Primitive + Enc + Clone + PartialEq + 'static, const D: usize>(
     list: &'a WengertList<T>,
+    other: &Record<'a, T>,
     ops: &[Op<T>],
     form: usize,
 ) -> Option<(usize, Status<Vec<CObj<'a, T, D>>>)>
@@ -235,15 +246,15 @@ where
                         let r = if *mutating {
                             let mut y = x.clone();
                             let r = if indexed {
-                                y.map_mut_with_index(|i, r| eval::<T>(e, &r, i.iter().all(|k| *k == 0), form))
+                                y.map_mut_with_index(|i, r| eval::<T>(e, &r, i.iter().all(|k| *k == 0), form, other))
                             } else {
-                                y.map_mut(|r| eval::<T>(e, &r, false, form))
+                                y.map_mut(|r| eval::<T>(e, &r, false, form, other))
                             };
                             r.map(|_| y)
                         } else if indexed {
-                            x.map_with_index(|i, r| eval::<T>(e, &r, i.iter().all(|k| *k == 0), form))
+                            x.map_with_index(|i, r| eval::<T>(e, &r, i.iter().all(|k| *k == 0), form, other))
                         } else {
-                            x.map(|r| eval::<T>(e, &r, false, form))
+                            x.map(|r| eval::<T>(e, &r, false, form, other))
                         };
                         match r {
                             Ok(y) => Ok(vec![CObj::Ten(y)]),
@@ -254,15 +265,15 @@ where
                         let r = if *mutating {
                             let mut y = x.clone();
                             let r = if indexed {
-                                y.map_mut_with_index(|r, i, j| eval::<T>(e, &r, i == 0 && j == 0, form))
+                                y.map_mut_with_index(|r, i, j| eval::<T>(e, &r, i == 0 && j == 0, form, other))
                             } else {
-                                y.map_mut(|r| eval::<T>(e, &r, false, form))
+                                y.map_mut(|r| eval::<T>(e, &r, false, form, other))
                             };
                             r.map(|_| y)
                         } else if indexed {
-                            x.map_with_index(|r, i, j| eval::<T>(e, &r, i == 0 && j == 0, form))
+                            x.map_with_index(|r, i, j| eval::<T>(e, &r, i == 0 && j == 0, form, other))
                         } else {
-                            x.map(|r| eval::<T>(e, &r, false, form))
+                            x.map(|r| eval::<T>(e, &r, false, form, other))
                         };
                         match r {
                             Ok(y) => Ok(vec![CObj::Mat(y)]),
@@ -271,32 +282,42 @@ where
                     }),
                 }
             }
-            Op::FromIter { tensor, shape, colmajor, a } => {
+            Op::FromIter { tensor, shape, colmajor, e, a } => {
                 let src = env.get(*a)?;
                 if (*colmajor && matches!(src, CObj::Ten(_))) || (!*tensor && shape.len() != 2) {
                     return None;
                 }
-                // the records in the requested order (AsRecords iterators)
-                let recs: Vec<Record<'a, T>> = match src {
-                    CObj::Ten(x) => x.iter_as_records().collect(),
-                    CObj::Mat(x) => {
-                        if *colmajor {
-                            x.iter_column_major_as_records().collect()
-                        } else {
-                            x.iter_row_major_as_records().collect()
-                        }
-                    }
-                };
                 guarded(|| {
-                    if *tensor {
-                        match RecordTensor::from_iter(shape_arr::<D>(shape), recs) {
-                            Ok(y) => Ok(vec![CObj::Ten(y)]),
-                            Err(e) => Err(iter_err(e)),
-                        }
-                    } else {
-                        match RecordMatrix::from_iter((shape[0].1, shape[1].1), recs) {
-                            Ok(y) => Ok(vec![CObj::Mat(y)]),
-                            Err(e) => Err(iter_err(e)),
+                    // the closure is applied lazily, in the iteration order of the AsRecords iterator
+                    let mut first = true;
+                    let mut f = |r: Record<'a, T>| {
+                        let fl = first;
+                        first = false;
+                        eval::<T>(e, &r, fl, form, other)
+                    };
+                    macro_rules! collect {
+                        ($iter:expr) => {
+                            if *tensor {
+                                match RecordTensor::from_iter(shape_arr::<D>(shape), $iter) {
+                                    Ok(y) => Ok(vec![CObj::Ten(y)]),
+                                    Err(e) => Err(iter_err(e)),
+                                }
+                            } else {
+                                match RecordMatrix::from_iter((shape[0].1, shape[1].1), $iter) {
+                                    Ok(y) => Ok(vec![CObj::Mat(y)]),
+                                    Err(e) => Err(iter_err(e)),
+                                }
+                            }
+                        };
+                    }
+                    match src {
+                        CObj::Ten(x) => collect!(x.iter_as_records().map(&mut f)),
+                        CObj::Mat(x) => {
+                            if *colmajor {
+                                collect!(x.iter_column_major_as_records().map(&mut f))
+                            } else {
+                                collect!(x.iter_row_major_as_records().map(&mut f))
+                            }
                         }
                     }
                 })
@@ -309,7 +330,7 @@ where
                         x.iter_as_records().map(|r| {
                             let f = first;
                             first = false;
-                            [eval::<T>(e1, &r, f, form), eval::<T>(e2, &r, f, form)]
+                            [eval::<T>(e1, &r, f, form, other), eval::<T>(e2, &r, f, form, other)]
                         }),
                     );
                     match (r1, r2) {
@@ -325,7 +346,7 @@ where
                         x.iter_row_major_as_records().map(|r| {
                             let f = first;
                             first = false;
-                            [eval::<T>(e1, &r, f, form), eval::<T>(e2, &r, f, form)]
+                            [eval::<T>(e1, &r, f, form, other), eval::<T>(e2, &r, f, form, other)]
                         }),
                     );
                     match (r1, r2) {
@@ -339,7 +360,21 @@ where
         match r {
             None => return Some((n, Status::Panic)),
             Some(Err(code)) => return Some((n, Status::Err(code))),
-            Some(Ok(objs)) => env.extend(objs),
+            Some(Ok(objs)) => {
+                // a container collected on the foreign list is outside the case language
+                for o in &objs {
+                    let h = match o {
+                        CObj::Ten(c) => c.history(),
+                        CObj::Mat(c) => c.history(),
+                    };
+                    if let Some(h) = h {
+                        if !std::ptr::eq(h, list) {
+                            return None;
+                        }
+                    }
+                }
+                env.extend(objs)
+            }
         }
     }
     Some((ops.len(), Status::Ok(env)))
@@ -499,6 +534,7 @@ fn same_shape(tensor: bool, a: &[(usize, usize)], b: &[(usize, usize)]) -> bool 
 
 fn e_pass<'a, T: Real + Primitive + Enc + Clone + PartialEq + 'static>(
     list: &'a WengertList<T>,
+    other: &Record<'a, T>,
     ops: &[Op<T>],
 ) -> Option<(usize, Status<Vec<EObj<'a, T>>>)>
 where
@@ -575,11 +611,11 @@ where
                     vec![EObj {
                         tensor: x.tensor,
                         shape: x.shape.clone(),
-                        recs: x.recs.iter().enumerate().map(|(k, r)| eval::<T>(e, r, k == 0, 0)).collect(),
+                        recs: x.recs.iter().enumerate().map(|(k, r)| eval::<T>(e, r, k == 0, 0, other)).collect(),
                     }]
                 })
             }
-            Op::FromIter { tensor, shape, colmajor, a } => {
+            Op::FromIter { tensor, shape, colmajor, e, a } => {
                 let x = env.get(*a)?;
                 let recs: Vec<Record<'a, T>> = if *colmajor {
                     let (rows, cols) = (x.shape[0].1, x.shape[1].1);
@@ -587,7 +623,13 @@ where
                 } else {
                     x.recs.clone()
                 };
-                Some(vec![EObj { tensor: *tensor, shape: shape.clone(), recs }])
+                guarded(|| {
+                    vec![EObj {
+                        tensor: *tensor,
+                        shape: shape.clone(),
+                        recs: recs.iter().enumerate().map(|(k, r)| eval::<T>(e, r, k == 0, 0, other)).collect(),
+                    }]
+                })
             }
             Op::FromIters2 { e1, e2, a } => {
                 let x = env.get(*a)?;
@@ -595,8 +637,8 @@ where
                     let mut r1 = vec![];
                     let mut r2 = vec![];
                     for (k, r) in x.recs.iter().enumerate() {
-                        r1.push(eval::<T>(e1, r, k == 0, 0));
-                        r2.push(eval::<T>(e2, r, k == 0, 0));
+                        r1.push(eval::<T>(e1, r, k == 0, 0, other));
+                        r2.push(eval::<T>(e2, r, k == 0, 0, other));
                     }
                     vec![
                         EObj { tensor: x.tensor, shape: x.shape.clone(), recs: r1 },
@@ -673,7 +715,9 @@ where
     let mut canonical: Option<(Sx, Vec<Sx>)> = None; // (printed result, per-output (values, derivs) for the oracle)
     for form in 0..4 {
         let list = WengertList::new();
-        let Some((n, st)) = c_pass::<T, D>(&list, &ops, form) else { return bad_case() };
+        let other_list = WengertList::new();
+        let other = Record::variable(T::one(), &other_list);
+        let Some((n, st)) = c_pass::<T, D>(&list, &other, &ops, form) else { return bad_case() };
         let mut oracle = vec![];
         let printed = match &st {
             Status::Ok(env) => {
@@ -710,7 +754,9 @@ where
     }
     // ---- the element-by-element oracle
     let list2 = WengertList::new();
-    let Some((n2, st2)) = e_pass::<T>(&list2, &ops) else { return bad_case() };
+    let other_list2 = WengertList::new();
+    let other2 = Record::variable(T::one(), &other_list2);
+    let Some((n2, st2)) = e_pass::<T>(&list2, &other2, &ops) else { return bad_case() };
     let Status::Ok(eenv) = &st2 else { return inconsistent(610) };
     let e_items: Vec<Sx> = outs.iter().map(|&o| e_result::<T>(eenv, &inputs, o)).collect();
     // property oracle: same values, same constant-ness, same derivatives for every
